@@ -1738,6 +1738,23 @@ func runFlags(c *core.Ctx) {
 		row, documented := flagTable[n]
 		paths := dedupe(fieldToPaths[fi.field])
 		sort.Strings(paths)
+		// a part of the configuration built in a step and assigned whole (`conf.Storage = opts.configStorage(storeType)`)
+		// makes the option reach the enclosing record as well as the field inside it: the field is the setting
+		{
+			var inner []string
+			for _, p := range paths {
+				enclosing := false
+				for _, q := range paths {
+					if q != p && strings.HasPrefix(q, p+".") {
+						enclosing = true
+					}
+				}
+				if !enclosing {
+					inner = append(inner, p)
+				}
+			}
+			paths = inner
+		}
 		key := "flag:" + n
 		if !documented {
 			// a flag the frozen table does not know: wiring is checked for uniqueness only
